@@ -109,9 +109,14 @@ def mutants_of(path):
     return src, out
 
 
+def _limit():
+    import resource
+    resource.setrlimit(resource.RLIMIT_AS, (24 << 30, 24 << 30))
+
+
 def run(cmd, cwd=None, timeout=900, env=ENV):
     try:
-        p = subprocess.run(cmd, cwd=cwd, env=env, stdout=subprocess.PIPE, stderr=subprocess.STDOUT, text=True, errors="replace", timeout=timeout)
+        p = subprocess.run(cmd, preexec_fn=_limit if cmd[0] == "go" else None, cwd=cwd, env=env, stdout=subprocess.PIPE, stderr=subprocess.STDOUT, text=True, errors="replace", timeout=timeout)
         return p.returncode, p.stdout
     except subprocess.TimeoutExpired:
         return 124, "timeout"
